@@ -58,6 +58,7 @@ func runC12(c *Ctx) {
 	c.R.Floor("R-C12-1", 20)
 	c12Fields(c, reach)
 	c12Identity(c)
+	dnsslNames(c, "R-C12-5")
 	c12Granularity(c, reach)
 	c12Absent(c)
 	c12Report(c)
